@@ -3,7 +3,7 @@
 2 write_fmt / write!, 3 flush, 4 bare write / write_vectored.  Do not edit. -/
 namespace CG.Generated.WriteSites
 
-def files : List String := ["messages/addr.rs", "messages/authch.rs", "messages/block_header.rs", "messages/block_locator.rs", "messages/cmpctblock.rs", "messages/createstrm.rs", "messages/fee_filter.rs", "messages/filter_add.rs", "messages/filter_load.rs", "messages/headers.rs", "messages/inv_vect.rs", "messages/merkle_block.rs", "messages/message.rs", "messages/message_header.rs", "messages/node_addr.rs", "messages/node_addr_ex.rs", "messages/out_point.rs", "messages/ping.rs", "messages/protoconf.rs", "messages/reject.rs", "messages/send_cmpct.rs", "messages/streamack.rs", "messages/tx.rs", "messages/tx_in.rs", "messages/tx_out.rs", "messages/version.rs", "util/bloom_filter.rs", "util/hash256.rs", "util/serdes.rs", "util/var_int.rs", "wallet/extended_key.rs"]
+def files : List String := ["messages/addr.rs", "messages/authch.rs", "messages/block_header.rs", "messages/block_locator.rs", "messages/cmpctblock.rs", "messages/createstrm.rs", "messages/fee_filter.rs", "messages/filter_add.rs", "messages/filter_load.rs", "messages/headers.rs", "messages/inv_vect.rs", "messages/merkle_block.rs", "messages/message_header.rs", "messages/node_addr.rs", "messages/node_addr_ex.rs", "messages/out_point.rs", "messages/ping.rs", "messages/protoconf.rs", "messages/reject.rs", "messages/send_cmpct.rs", "messages/streamack.rs", "messages/tx.rs", "messages/tx_in.rs", "messages/tx_out.rs", "messages/version.rs", "util/bloom_filter.rs", "util/hash256.rs", "util/serdes.rs", "util/var_int.rs", "wallet/extended_key.rs"]
 
 def sites : List (Nat × Nat × Nat) := [
   (0, 201, 1),  -- messages/addr.rs  fn write: .write_u8
@@ -39,58 +39,56 @@ def sites : List (Nat × Nat × Nat) := [
   (10, 48, 1),  -- messages/inv_vect.rs  fn write: .write_u32
   (11, 172, 1),  -- messages/merkle_block.rs  fn write: .write_u32
   (11, 178, 0),  -- messages/merkle_block.rs  fn write: .write_all
-  (12, 590, 4),  -- messages/message.rs  fn write_paced: .write
-  (12, 598, 4),  -- messages/message.rs  fn write_paced: .write
-  (13, 94, 0),  -- messages/message_header.rs  fn write: .write_all
-  (13, 95, 0),  -- messages/message_header.rs  fn write: .write_all
-  (13, 96, 1),  -- messages/message_header.rs  fn write: .write_u32
-  (13, 97, 0),  -- messages/message_header.rs  fn write: .write_all
-  (14, 53, 1),  -- messages/node_addr.rs  fn write: .write_u64
-  (14, 54, 0),  -- messages/node_addr.rs  fn write: .write_all
-  (14, 55, 1),  -- messages/node_addr.rs  fn write: .write_u16
-  (15, 35, 1),  -- messages/node_addr_ex.rs  fn write: .write_u32
-  (16, 39, 1),  -- messages/out_point.rs  fn write: .write_u32
-  (17, 26, 1),  -- messages/ping.rs  fn write: .write_u64
-  (18, 67, 1),  -- messages/protoconf.rs  fn write: .write_u32
-  (18, 71, 0),  -- messages/protoconf.rs  fn write: .write_all
-  (19, 74, 0),  -- messages/reject.rs  fn write: .write_all
-  (19, 75, 1),  -- messages/reject.rs  fn write: .write_u8
-  (19, 77, 0),  -- messages/reject.rs  fn write: .write_all
-  (19, 78, 0),  -- messages/reject.rs  fn write: .write_all
-  (20, 34, 1),  -- messages/send_cmpct.rs  fn write: .write_u8
-  (20, 35, 1),  -- messages/send_cmpct.rs  fn write: .write_u64
-  (21, 57, 1),  -- messages/streamack.rs  fn write: .write_u8
-  (21, 58, 0),  -- messages/streamack.rs  fn write: .write_all
-  (21, 61, 1),  -- messages/streamack.rs  fn write: .write_u8
-  (22, 206, 1),  -- messages/tx.rs  fn write: .write_u32
-  (22, 215, 1),  -- messages/tx.rs  fn write: .write_u32
-  (23, 45, 0),  -- messages/tx_in.rs  fn write: .write_all
-  (23, 46, 1),  -- messages/tx_in.rs  fn write: .write_u32
-  (24, 35, 1),  -- messages/tx_out.rs  fn write: .write_i64
-  (24, 37, 0),  -- messages/tx_out.rs  fn write: .write_all
-  (25, 94, 1),  -- messages/version.rs  fn write: .write_u32
-  (25, 95, 1),  -- messages/version.rs  fn write: .write_u64
-  (25, 96, 1),  -- messages/version.rs  fn write: .write_i64
-  (25, 99, 1),  -- messages/version.rs  fn write: .write_u64
-  (25, 101, 0),  -- messages/version.rs  fn write: .write_all
-  (25, 102, 1),  -- messages/version.rs  fn write: .write_i32
-  (25, 103, 1),  -- messages/version.rs  fn write: .write_u8
-  (25, 106, 1),  -- messages/version.rs  fn write: .write_u8
-  (25, 107, 0),  -- messages/version.rs  fn write: .write_all
-  (26, 122, 0),  -- util/bloom_filter.rs  fn write: .write_all
-  (26, 123, 1),  -- util/bloom_filter.rs  fn write: .write_u64
-  (26, 124, 1),  -- util/bloom_filter.rs  fn write: .write_u32
-  (27, 48, 0),  -- util/hash256.rs  fn write: .write_all
-  (28, 49, 0),  -- util/serdes.rs  fn write: .write_all
-  (28, 62, 0),  -- util/serdes.rs  fn write: .write_all
-  (29, 23, 1),  -- util/var_int.rs  fn write: .write_u8
-  (29, 25, 1),  -- util/var_int.rs  fn write: .write_u8
-  (29, 26, 1),  -- util/var_int.rs  fn write: .write_u16
-  (29, 28, 1),  -- util/var_int.rs  fn write: .write_u8
-  (29, 29, 1),  -- util/var_int.rs  fn write: .write_u32
-  (29, 31, 1),  -- util/var_int.rs  fn write: .write_u8
-  (29, 32, 1),  -- util/var_int.rs  fn write: .write_u64
-  (30, 409, 0)  -- wallet/extended_key.rs  fn write: .write_all
+  (12, 94, 0),  -- messages/message_header.rs  fn write: .write_all
+  (12, 95, 0),  -- messages/message_header.rs  fn write: .write_all
+  (12, 96, 1),  -- messages/message_header.rs  fn write: .write_u32
+  (12, 97, 0),  -- messages/message_header.rs  fn write: .write_all
+  (13, 53, 1),  -- messages/node_addr.rs  fn write: .write_u64
+  (13, 54, 0),  -- messages/node_addr.rs  fn write: .write_all
+  (13, 55, 1),  -- messages/node_addr.rs  fn write: .write_u16
+  (14, 35, 1),  -- messages/node_addr_ex.rs  fn write: .write_u32
+  (15, 39, 1),  -- messages/out_point.rs  fn write: .write_u32
+  (16, 26, 1),  -- messages/ping.rs  fn write: .write_u64
+  (17, 67, 1),  -- messages/protoconf.rs  fn write: .write_u32
+  (17, 71, 0),  -- messages/protoconf.rs  fn write: .write_all
+  (18, 74, 0),  -- messages/reject.rs  fn write: .write_all
+  (18, 75, 1),  -- messages/reject.rs  fn write: .write_u8
+  (18, 77, 0),  -- messages/reject.rs  fn write: .write_all
+  (18, 78, 0),  -- messages/reject.rs  fn write: .write_all
+  (19, 34, 1),  -- messages/send_cmpct.rs  fn write: .write_u8
+  (19, 35, 1),  -- messages/send_cmpct.rs  fn write: .write_u64
+  (20, 57, 1),  -- messages/streamack.rs  fn write: .write_u8
+  (20, 58, 0),  -- messages/streamack.rs  fn write: .write_all
+  (20, 61, 1),  -- messages/streamack.rs  fn write: .write_u8
+  (21, 206, 1),  -- messages/tx.rs  fn write: .write_u32
+  (21, 215, 1),  -- messages/tx.rs  fn write: .write_u32
+  (22, 45, 0),  -- messages/tx_in.rs  fn write: .write_all
+  (22, 46, 1),  -- messages/tx_in.rs  fn write: .write_u32
+  (23, 35, 1),  -- messages/tx_out.rs  fn write: .write_i64
+  (23, 37, 0),  -- messages/tx_out.rs  fn write: .write_all
+  (24, 94, 1),  -- messages/version.rs  fn write: .write_u32
+  (24, 95, 1),  -- messages/version.rs  fn write: .write_u64
+  (24, 96, 1),  -- messages/version.rs  fn write: .write_i64
+  (24, 99, 1),  -- messages/version.rs  fn write: .write_u64
+  (24, 101, 0),  -- messages/version.rs  fn write: .write_all
+  (24, 102, 1),  -- messages/version.rs  fn write: .write_i32
+  (24, 103, 1),  -- messages/version.rs  fn write: .write_u8
+  (24, 106, 1),  -- messages/version.rs  fn write: .write_u8
+  (24, 107, 0),  -- messages/version.rs  fn write: .write_all
+  (25, 122, 0),  -- util/bloom_filter.rs  fn write: .write_all
+  (25, 123, 1),  -- util/bloom_filter.rs  fn write: .write_u64
+  (25, 124, 1),  -- util/bloom_filter.rs  fn write: .write_u32
+  (26, 48, 0),  -- util/hash256.rs  fn write: .write_all
+  (27, 49, 0),  -- util/serdes.rs  fn write: .write_all
+  (27, 62, 0),  -- util/serdes.rs  fn write: .write_all
+  (28, 23, 1),  -- util/var_int.rs  fn write: .write_u8
+  (28, 25, 1),  -- util/var_int.rs  fn write: .write_u8
+  (28, 26, 1),  -- util/var_int.rs  fn write: .write_u16
+  (28, 28, 1),  -- util/var_int.rs  fn write: .write_u8
+  (28, 29, 1),  -- util/var_int.rs  fn write: .write_u32
+  (28, 31, 1),  -- util/var_int.rs  fn write: .write_u8
+  (28, 32, 1),  -- util/var_int.rs  fn write: .write_u64
+  (29, 409, 0)  -- wallet/extended_key.rs  fn write: .write_all
 ]
 
 end CG.Generated.WriteSites
